@@ -51,7 +51,10 @@ func TestVerifC07(t *testing.T) {
 	rng, n, done := c07setup()
 	defer done()
 	for s := 0; s < n; s++ {
-		nb := 1 + rng.Intn(40)
+		nb := []int{1, 1, 2, 3, 6, 1 + rng.Intn(40)}[rng.Intn(6)] // small models too: record size and buffer sizes interact
+		if s < 4 {
+			nb = []int{1, 2, 3, 6}[s]
+		}
 		nsamp := 8
 		f := c07NewFifo("x_chan1.off")
 		p := mat.NewDense(nb, nsamp, nil)
